@@ -260,6 +260,7 @@ func (s *Sorter) SortedBlocks(ctx context.Context, removedCols map[int]struct{},
 		blkPK := make([]string, 0, len(pkIndices))
 		rowPK := make([]string, len(pkIndices))
 		prevRowPK := make([]string, len(pkIndices))
+		hasPrevRow := false
 		dec := objects.NewStrListDecoder(true)
 		n := len(s.chunks)
 		chunkRows := make([]objects.StrList, n)
@@ -319,7 +320,7 @@ func (s *Sorter) SortedBlocks(ctx context.Context, removedCols map[int]struct{},
 			minRow = r.RemoveFrom(minRow)
 			row := dec.Decode(minRow)
 			slice.CopyValuesFromIndices(row, rowPK, pkIndices)
-			pkOK := pkIsDifferent(rowPK, prevRowPK)
+			pkOK := pkIsDifferent(rowPK, prevRowPK, &hasPrevRow)
 			if pkOK {
 				m := len(blk)
 				blk = blk[:m+1]
@@ -383,16 +384,15 @@ func (s *Sorter) SortedBlocks(ctx context.Context, removedCols map[int]struct{},
 	return
 }
 
-func pkIsDifferent(pk, prevPK []string) bool {
-	if prevPK == nil {
-		copy(prevPK, pk)
-		return true
-	} else {
-		if slice.StringSliceEqual(prevPK, pk) {
-			return false
-		}
+// pkIsDifferent reports whether pk differs from the previous row's pk.
+// hasPrev tells whether prevPK holds the key of an actual previous row:
+// the very first row is always different, even if its key is all empty.
+func pkIsDifferent(pk, prevPK []string, hasPrev *bool) bool {
+	if *hasPrev && slice.StringSliceEqual(prevPK, pk) {
+		return false
 	}
 	copy(prevPK, pk)
+	*hasPrev = true
 	return true
 }
 
@@ -411,6 +411,7 @@ func (s *Sorter) SortedRows(ctx context.Context, removedCols map[int]struct{}, e
 		chunkIdx := make([]int, n)
 		pk := make([]string, len(pkIndices))
 		prevPK := make([]string, len(pkIndices))
+		hasPrev := false
 		for {
 			minInd := 0
 			var minRow []string
@@ -464,7 +465,7 @@ func (s *Sorter) SortedRows(ctx context.Context, removedCols map[int]struct{}, e
 				break
 			}
 			slice.CopyValuesFromIndices(minRow, pk, pkIndices)
-			pkOK := pkIsDifferent(pk, prevPK)
+			pkOK := pkIsDifferent(pk, prevPK, &hasPrev)
 			if pkOK {
 				rows = append(rows, s.removeCols(minRow, removedCols))
 				if s.profiler != nil {
